@@ -6,6 +6,8 @@
     * enterFunc / enterFunc1 / enterFuncBody (vm.go:3727, 3810, 3858) alias it too, unless the scope is `extensible`,
       in which case they install a fresh COPY;
     * copyStash (per-iteration copy of a loop scope) aliases the names of the stash it replaces;
+    * a closure call / return / generator resume replaces the current chain by a chain of stashes created earlier
+      (`switch`: any sequence of stashes of the Runtime's pool);
     * bindVars.exec (`eval('var x')`) creates bindings in the nearest stash with `isVariable()` — or, when there is
       none, in the innermost stash — through stash.createBinding (writes the map);
     * deleteVar.exec deletes a binding only if it carries maskVar|maskDeletable (stash.deleteBinding).
@@ -36,7 +38,8 @@ structure Stash where
 structure St where
   maps : Nat → NMap
   next : Nat                  -- next fresh map id
-  stacks : Nat → List Stash   -- per Runtime, innermost stash first
+  pool : Nat → List Stash     -- per Runtime: every stash it ever created (a closure / generator may keep any of them alive)
+  stacks : Nat → List Stash   -- per Runtime: the current scope chain, innermost stash first
 
 inductive Op
   | enterFunc (pm : Nat) (extensible : Bool)    -- enterFunc / enterFunc1 / enterFuncBody with len(names) > 0
@@ -45,6 +48,9 @@ inductive Op
   | leave
   | bindVar (name : String) (deletable : Bool)  -- bindVars.exec, one name
   | deleteVar (name : String)
+  /-- a closure is called, a call returns, a generator is resumed …: the current scope chain becomes ANY sequence of
+  stashes this Runtime has created (vm.stash = f.stash; popCtx; generator resume) -/
+  | switch (chain : List Nat)
   deriving Repr
 
 def has (m : NMap) (n : String) : Bool := m.any (fun e => e.name == n)
@@ -76,6 +82,11 @@ def setMap (st : St) (id : Nat) (m : NMap) : St :=
 def setStack (st : St) (rt : Nat) (stk : List Stash) : St :=
   { st with stacks := fun x => if x = rt then stk else st.stacks x }
 
+/-- a newly created stash becomes the innermost one of the current chain and joins the Runtime's pool -/
+def push (st : St) (rt : Nat) (s : Stash) (rest : List Stash) : St :=
+  { st with stacks := fun x => if x = rt then s :: rest else st.stacks x
+            pool := fun x => if x = rt then s :: st.pool x else st.pool x }
+
 /-- One instruction of Runtime `rt`.  `bound`: ids below it are Program-owned maps. -/
 def step (bound : Nat) (st : St) (rt : Nat) : Op → St
   | .enterFunc pm ext =>
@@ -83,14 +94,14 @@ def step (bound : Nat) (st : St) (rt : Nat) : Op → St
       if ext then
         -- m := make(map…); for name, idx := range e.names { m[name] = idx }; stash.names = m
         let st1 := setMap st st.next (st.maps pm)
-        { setStack st1 rt (⟨st.next, true, true⟩ :: st.stacks rt) with next := st.next + 1 }
-      else setStack st rt (⟨pm, true, false⟩ :: st.stacks rt)          -- stash.names = e.names
+        { push st1 rt ⟨st.next, true, true⟩ (st.stacks rt) with next := st.next + 1 }
+      else push st rt ⟨pm, true, false⟩ (st.stacks rt)                  -- stash.names = e.names
     else st
   | .enterBlock pm =>
-    if pm < bound then setStack st rt (⟨pm, false, false⟩ :: st.stacks rt) else st   -- vm.stash.names = e.names
+    if pm < bound then push st rt ⟨pm, false, false⟩ (st.stacks rt) else st          -- vm.stash.names = e.names
   | .copyStash =>
     match st.stacks rt with
-    | s :: rest => setStack st rt (⟨s.map, false, s.own⟩ :: rest)                     -- newStash.names = oldStash.names
+    | s :: rest => push st rt ⟨s.map, false, s.own⟩ rest                             -- newStash.names = oldStash.names
     | [] => st
   | .leave => setStack st rt (st.stacks rt).tail
   | .bindVar n d =>
@@ -101,6 +112,7 @@ def step (bound : Nat) (st : St) (rt : Nat) : Op → St
     match delTarget st.maps (st.stacks rt) n with
     | some id => setMap st id (deleteBinding (st.maps id) n)
     | none => st
+  | .switch chain => setStack st rt (chain.filterMap (fun i => (st.pool rt)[i]?))
 
 def run (bound : Nat) : St → List (Nat × Op) → St
   | st, [] => st
@@ -116,8 +128,11 @@ def allH (bound : Nat) : St → List (Nat × Op) → Bool
   | _, [] => true
   | st, (rt, op) :: rest => hOK st rt op && allH bound (step bound st rt op) rest
 
-/-- What Runtime `rt` can observe of its scope chain: the contents of the maps, innermost first. -/
+/-- What Runtime `rt` can observe of its current scope chain: the contents of the maps, innermost first. -/
 def view (st : St) (rt : Nat) : List (NMap × Bool) := (st.stacks rt).map (fun s => (st.maps s.map, s.isVar))
+
+/-- … and of every stash it ever created (whatever closure, generator or pending call still holds it). -/
+def poolView (st : St) (rt : Nat) : List (NMap × Bool) := (st.pool rt).map (fun s => (st.maps s.map, s.isVar))
 
 def onlyOf (r : Nat) (ops : List (Nat × Op)) : List (Nat × Op) := ops.filter (fun x => x.1 == r)
 
